@@ -27,7 +27,7 @@ ASSUMPTIONS = ["the cached name-server proxy of the gateway module is seeded wit
                "header-wrong + parameter-right may be refused (the safe direction is not flagged)", "a repeated $key parameter is judged only on 'no Pyro traffic'",
                "blank query values are not generated (parse_qs drops them by documented default)"]
 REQUIRED_REACH = ["expose_pattern_reconfigured", "index_pages_ok", "sql_backed_name_server_shards", "unauthorised_refused", "forwarded_ok", "meta_ok", "errors_500_ok", "oneway_ok", "non_call_requests", "pattern_mismatch_refused", "key_missing_refused", "lost_reply_once_ok", "lifecycle_histories_ok"]
-SHARD_TIMEOUT = {"quick": 240, "thorough": 3000}
+SHARD_TIMEOUT = {"quick": 480, "thorough": 3000}
 KEY = "s3cret"
 OBJ_NAMES = ["http.calc", "http.calc2", "http.other", "Http.calc", "xhttp.calc", "other.obj", "http.", "http.a/b", "xother.obj", "a.other.x", "http.a%41", "http.aA", "http.b+c"]
 PATTERNS = [r"http\.", "", r"^http\.calc$", r"http\.calc|other\.", r"http\.(calc|other)$", "http."]
